@@ -5,6 +5,7 @@ import (
 
 	"verif/engine/gosym"
 	. "verif/engine/oracle"
+	"verif/engine/sym"
 )
 
 const printableNoBackquote = " !\"#$%&'()*+,-./0123456789:;<=>?@ABCDEFGHIJKLMNOPQRSTUVWXYZ[\\]^_abcdefghijklmnopqrstuvwxyz{|}~"
@@ -148,6 +149,38 @@ func c08Shapes(quick bool) []Shape {
 				shl.Stdin = []gosym.Str{v}
 			},
 			Concretize: func(o *eqOutcome, m map[string]uint64) { o.Stdin = o.Data + "\n" },
+		})
+	}
+	// origin 4: the standard output of a command (captured by a program call)
+	const emitScript = "#!/bin/bash\ncat emit.dat\n"
+	for _, dp := range dataPaths()[:8] {
+		dp := dp
+		sh = append(sh, Shape{Name: dp.name + ".from-command",
+			Prog: func(c *gosym.Ctx) *Program {
+				n := c.Choose("len", 1, maxN)
+				v := SymStr(c, "v", n, printableNoBackquote+"`\t")
+				c.Data["v"] = v
+				dexpr := V("s")
+				return Prog(append([]Stmt{DefN([]string{"s", "se", "sc"}, AppCallE{Calls: []AppOne{{Name: "./emit"}}})}, dp.body(n, dexpr)...)...)
+			},
+			Pre: map[string]string{"emit": emitScript},
+			Setup: func(c *gosym.Ctx, in *Interp, shl *Shell) {
+				v := c.Data["v"].(gosym.Str)
+				line := gosym.Concat(v, gosym.Conc("\n"))
+				in.Files["emit.dat"] = line
+				shl.Files["emit.dat"] = line
+				shl.Stub = func(sh *Shell, argv []gosym.Str, stdin gosym.Str) (gosym.Str, gosym.Value) { return line, int64(0) }
+				in.AppStub = func(in *Interp, name string, args []gosym.Str, stdin gosym.Str) (gosym.Str, *sym.Term) {
+					return line, c.B.Int(0, 64)
+				}
+			},
+			Concretize: func(o *eqOutcome, m map[string]uint64) {
+				o.Pre = map[string]string{"emit": emitScript, "emit.dat": o.Data + "\n"}
+				if o.ExpFiles != nil {
+					o.ExpFiles["emit.dat"] = o.Data + "\n"
+					o.ExpFiles["emit"] = emitScript
+				}
+			},
 		})
 	}
 	return sh
